@@ -244,7 +244,7 @@ func TestVerif_C43(t *testing.T) {
 	r.SetRule("history = 200-2000 PRNG operations (Create/Refresh/Unlock/Confirm/release) over 8 names of a 3-level tree in clean and un-clean spellings, durations {infinite, 0, 1s, 1h, 90m}, monotone clock steps {0, 1ns, 0.5s, 1s, 30m, 1h, to-exactly-an-expiry, 1ns-before-an-expiry}; every result compared with a sequential model; white-box bookkeeping checked every few ops. non-trivial = history with >=1 Create refused for a conflict, >=1 lock expired, >=1 successful Confirm and >=1 operation refused because the lock was held; distinct by hash of the (op,result) sequence")
 	r.Assume("sequential model written from the LockSystem interface documentation and the property statement; a lock is expired at exactly its expiry instant (!now.Before(expiry)), as DESIGN.md fixes; Condition.Not/ETag are not generated with tokens (the interface leaves them unspecified for memLS)")
 
-	r.CasesParallel("history", r.N(300, 6000), 0, func(c *verifrt.Case) { c43History(r, c) })
+	r.CasesParallel("history", r.N(300, 4000), 0, func(c *verifrt.Case) { c43History(r, c) })
 	r.Cases("concurrent", r.N(4, 40), func(c *verifrt.Case) { c43Concurrent(r, c) })
 
 	r.Require("ops", 20000)
